@@ -20,6 +20,10 @@ DISC(crc32_iscsi_base) DISC(crc32_iscsi_00) DISC(crc32_iscsi_01) DISC(crc32_iscs
 #define D64ALL(x) D64(crc64_##x) D64(crc64_##x##_base) D64(crc64_##x##_by8) D64(crc64_##x##_by16_10)
 D64ALL(ecma_refl) D64ALL(ecma_norm) D64ALL(iso_refl) D64ALL(iso_norm) D64ALL(jones_refl) D64ALL(jones_norm) D64ALL(rocksoft_refl) D64ALL(rocksoft_norm)
 D32(adler32_base) D32(adler32_sse) D32(adler32_avx2_4)
+// alias layer of assembly-less builds, renamed by the verification makefile (tools/genmk.py)
+D16(noarch_crc16_t10dif) D16C(noarch_crc16_t10dif_copy) D32(noarch_crc32_ieee) D32(noarch_crc32_gzip_refl) DISC(noarch_crc32_iscsi)
+D64(noarch_crc64_ecma_refl) D64(noarch_crc64_ecma_norm) D64(noarch_crc64_iso_refl) D64(noarch_crc64_iso_norm) D64(noarch_crc64_jones_refl) D64(noarch_crc64_jones_norm)
+D64(noarch_crc64_rocksoft_refl) D64(noarch_crc64_rocksoft_norm)
 }
 
 namespace crcv {
@@ -37,6 +41,12 @@ static const Var DIRECT[] = {
 	V(crc32_iscsi_base, KISC, ISCSI, "base"), V(crc32_iscsi_00, KISC, ISCSI, "sse"), V(crc32_iscsi_01, KISC, ISCSI, "sse"), V(crc32_iscsi_by16_10, KISC, ISCSI, "avx512_g2"),
 	V64(ecma_refl, ECMA_REFL), V64(ecma_norm, ECMA_NORM), V64(iso_refl, ISO_REFL), V64(iso_norm, ISO_NORM),
 	V64(jones_refl, JONES_REFL), V64(jones_norm, JONES_NORM), V64(rocksoft_refl, ROCKSOFT_REFL), V64(rocksoft_norm, ROCKSOFT_NORM),
+	V(noarch_crc16_t10dif, K16, T10DIF, "base"), V(noarch_crc16_t10dif_copy, K16C, T10DIF, "base"), V(noarch_crc32_ieee, K32, IEEE, "base"), V(noarch_crc32_gzip_refl, K32, GZIP, "base"),
+	V(noarch_crc32_iscsi, KISC, ISCSI, "base"),
+	V(noarch_crc64_ecma_refl, K64, ECMA_REFL, "base"), V(noarch_crc64_ecma_norm, K64, ECMA_NORM, "base"), V(noarch_crc64_iso_refl, K64, ISO_REFL, "base"), V(noarch_crc64_iso_norm, K64, ISO_NORM, "base"),
+	V(noarch_crc64_jones_refl, K64, JONES_REFL, "base"), V(noarch_crc64_jones_norm, K64, JONES_NORM, "base"), V(noarch_crc64_rocksoft_refl, K64, ROCKSOFT_REFL, "base"),
+	V(noarch_crc64_rocksoft_norm, K64, ROCKSOFT_NORM, "base"),
+	// (the three Adler kernels stay last: C04 addresses them as NDIRECT-3..NDIRECT-1)
 	V(adler32_base, KADLER, -1, "base"), V(adler32_sse, KADLER, -1, "sse"), V(adler32_avx2_4, KADLER, -1, "avx2"),
 };
 static const int NDIRECT = sizeof(DIRECT) / sizeof(DIRECT[0]);
